@@ -843,6 +843,23 @@ def compose_rule(P, E, H):
                 saw_emit = True
             if "sink_complete" in tr or "sink_error" in tr:
                 r.violate(("operators::start_with::StartWith", "terminates by itself"), "start_with's own body terminates the subscriber", body=sw)
+        # the subscriber is re-checked AFTER the last prefix item: every path from an emission to the subscription of the source passes
+        # an is_subscribed() test (a downstream that finished exactly on the last prefix item - start_with(1..=3).take(3) - must not
+        # get the source subscribed on its behalf)
+        emits = [k for k in sw.calls if atom(k) in ("obs_next", "sink_next")]
+        subsc = [k for k in sw.calls if atom(k) == "subscribe"]
+        gates_ = [k.bb for k in sw.calls if atom(k) == "is_subscribed"]
+        for e_ in emits:
+            for s_ in subsc:
+                if e_.target is None:
+                    continue
+                pth = Effects.path_avoiding(sw, [s_.bb], gates_, start=e_.target)
+                if pth is not None:
+                    r.violate(("operators::start_with::StartWith", "source subscribed without re-checking the subscriber"),
+                              "start_with can go from emitting a prefix item to subscribing the source without asking is_subscribed() in "
+                              "between: a subscriber that finished on the last prefix item gets the source started on its behalf, and nothing "
+                              "ever stops it", body=sw, line=s_.line)
+                    break
         r.instance(("operators::start_with::StartWith", "prefix then source"), True, "%d paths" % len(S.paths))
         if not (saw_emit and saw_sub):
             r.violate(("operators::start_with::StartWith", "prefix or source missing"), "start_with must emit its prefix and then subscribe the source", body=sw)
@@ -948,6 +965,57 @@ def gates_rule(P, E, H):
                        % (name, n, GATE_DEPTH, {k: len(v.paths) for k, v in sorted(S.items())}))
         except Undecided as e:
             r.error("GATE: %s not decidable in the abstraction: %s" % (name, e))
+    return r
+
+
+GATE_FIRST = {"take_until": "trigger", "skip_until": "trigger", "sample": "trigger", "switch_on_next": "source"}
+
+
+def gate_order_rule(P, E, H):
+    """Which of its two inputs a gating operator subscribes first decides what a COLD input does to it: take_until / skip_until /
+    sample arm the trigger before they start the source (a trigger that fires at subscribe time - just(()), a BehaviorSubject - or
+    from inside the source's synchronous run must already be listening); switch_on_next starts with its source.  Both inputs are
+    subscribed unconditionally."""
+    r = RuleResult("GATE-ORDER", "take_until / skip_until / sample subscribe the trigger, then the source; switch_on_next the source, then the target; "
+                                 "both on every path")
+    for c in E.sites["create"]:
+        cl = c.arg_closure(0)
+        sb = P.bodies.get(cl) if cl else None
+        if sb is None:
+            continue
+        ex = P.bodies.get(sb.root)
+        if ex is None or ex.kind != "assoc" or ex.name != "execute":
+            continue
+        root = H.type_root(ex)
+        if root not in GATES:
+            continue
+        name = GATES[root][0]
+        subs = {"source": [], "trigger": []}
+        for k in sb.calls:
+            if atom(k) != "subscribe" or not k.args:
+                continue
+            is_src = False
+            for t in sb.operand_prov(k.args[0]):
+                for g in P.global_cell(sb, t, through_helpers=True):
+                    if g[0] == ex.id and g[1] == "param" and g[2] == 2:
+                        is_src = True
+            subs["source" if is_src else "trigger"].append(k)
+        r.instance((root, "input order"), True, "source subscribed at %s, trigger/target at %s" % ([k.bb for k in subs["source"]], [k.bb for k in subs["trigger"]]))
+        if len(subs["source"]) != 1 or len(subs["trigger"]) != 1:
+            r.error("GATE-ORDER: %s: expected one subscription of the source and one of the trigger in the per-subscribe code, found %d/%d"
+                    % (name, len(subs["source"]), len(subs["trigger"])))
+            continue
+        first, second = (subs["trigger"][0], subs["source"][0]) if GATE_FIRST[name] == "trigger" else (subs["source"][0], subs["trigger"][0])
+        dom = sb.dominators()
+        if first.bb not in dom[second.bb]:
+            r.violate((root, "input order", "wrong input first"),
+                      "%s subscribes its %s before its %s: a cold %s that acts at subscribe time (or from inside the other input's synchronous "
+                      "run) is not listening yet / has already run" % (name, "source" if GATE_FIRST[name] == "trigger" else "target",
+                                                                       GATE_FIRST[name], GATE_FIRST[name]), body=sb, line=second.line)
+        for k, what in ((first, "first"), (second, "second")):
+            if Effects.path_avoiding(sb, sb.returns, [k.bb]) is not None:
+                r.violate((root, "input order", "input subscribed only on some paths"),
+                          "%s subscribes its %s input only on some paths of its per-subscribe code" % (name, what), body=sb, line=k.line)
     return r
 
 
